@@ -17,7 +17,7 @@ TECHNIQUE = "exhaustive fault injection: an exception or KeyboardInterrupt is ra
 RULE = (
     "enumerated grid: run length N in 1..Nmax (5 quick, 8 thorough) x save_every in {1,2,3,N,N+1} x thermalisation {off, 2 steps} x injection point "
     "{entry of update call g for every g in both stages (and one past the end = no fault), entry of frame write w for every w} x {RuntimeError, "
-    "KeyboardInterrupt}; output path explicit/None, pre-existing files at the path ({}, out.h5, out.h5+out-1.h5, out-1.h5, stale out.h5.tmp) and "
+    "KeyboardInterrupt}; output path explicit/None, pre-existing files at the path ({}, out.h5, out.h5+out-1.h5, out-1.h5, stale out.h5.tmp, stale .tmp next to a taken serial name) and "
     "pause_on_interrupt (answering 'n') are rotated over the grid; non-trivial = the stop happens at a step >= 1 with at least one frame already written"
 )
 ASSUMPTIONS = [
@@ -33,7 +33,8 @@ LEVEL_TEXT = (
 LEVEL_NOTE = "Trusted: the harness's reference model of which frames exist after a cut; h5py; SHA-256 of pre-existing files."
 
 DATASETS = ("psi", "mu", "supercurrent", "normal_current", "induced_vector_potential")
-PRE = [[], ["out.h5"], ["out.h5", "out-1.h5"], ["out-1.h5"], ["out.h5.tmp"], ["out.h5", "out.h5.tmp"]]
+PRE = [[], ["out.h5"], ["out.h5", "out-1.h5"], ["out-1.h5"], ["out.h5.tmp"], ["out.h5", "out.h5.tmp"],
+       ["out.h5.tmp", "out-1.h5"], ["out.h5", "out-1.h5.tmp", "out-2.h5"]]
 
 
 def budget(tier):
